@@ -34,7 +34,9 @@ RULE = ("four corpora, user names drawn from a hostile near-miss pool (anon_1 _a
         "nonlocal-global/assert/chainc/require, rendered with hostile and with benign names, with two user variables that "
         "are bound once and only read afterwards and `with ... as v` variables read right after the form (closed-form "
         "expected values); (c) nested lets binding "
-        "one hostile name with a closed-form trace; (d) the let/comprehension/nonlocal/match sources of the C04 C06 "
+        "one hostile name with a closed-form trace, and chains of 10-45 simultaneously live let / except bindings in "
+        "one unit with digit-suffixed user names chosen so that name+serial of one temporary reads like another's "
+        "(total1 as no. 1 and total as no. 11), each variable logged at the end (closed form); (d) the let/comprehension/nonlocal/match sources of the C04 C06 "
         "C07 C08 generators when importable (static oracle only). Non-trivial = the compiled AST contains >= 2 "
         "distinct _hy_ names; distinct by program text.")
 FLOOR = {"quick": 1000, "thorough": 1000}
@@ -160,6 +162,10 @@ def cases(seed, tier, shard, nshards):
             yield {"kind": "tmpl", "tmpl": t["tmpl"], "names": names, "feats": t["feats"],
                    "keep": t["keep"], "inv": t["inv"],
                    "text": O.subst(t["tmpl"], names), "watch": watch_names(rng, names)}
+        elif r == 8 and i % 20 == 8:
+            tmpl, names, exp, variant = O.digit_program(rng)
+            yield {"kind": "shadow", "tmpl": tmpl, "names": names, "exp": exp, "text": O.subst(tmpl, names),
+                   "feats": ["digit-suffixed-names", "digits-" + variant], "watch": watch_names(rng, names[:3])}
         elif r == 8:
             tmpl, exp = O.shadow_program(rng)
             names = O.pick_names(rng, 1, "hostile")
